@@ -2,7 +2,7 @@ SPECIFICATION Spec
 CONSTANTS
   Vouchers = {"va", "vb"}
   AmtClasses = {"1", "2", "zero", "garbage", "neg"}
-  RecvClasses = {"user", "invalid", "blocked"}
+  RecvClasses = {"user", "invalid", "blocked", "hexsender"}
   BackDenoms = {"va", "vb"}
   HookReturnsAck = TRUE
 INVARIANTS AckAlwaysCommitted SuccessAcked Backed NonNegative
